@@ -57,6 +57,7 @@ PROPS['C06'] = dict(
     assumptions=['time is advanced with opn2_generate at 8 kHz on the GENS/MAME cores: only the age counters matter'],
     stages=[
         dict(name='random', variant='asan', harness='c04_voices.cpp', quick=8000, thorough=100000, opts=dict(mode='c06', maxops=300), budget=60),
+        dict(name='longhold', variant='plain', harness='c04_voices.cpp', quick=480, thorough=4800, opts=dict(mode='c06', longhold=1), budget=300, **{'as': 'random'}),
         dict(name='pressure', variant='asan', harness='c04_voices.cpp', quick=15000, thorough=200000, opts=dict(mode='c06', maxops=300, pressure=1), budget=60, **{'as': 'random'}),
     ],
 )
